@@ -608,9 +608,13 @@ impl DealerSocket {
 
     match self.outgoing_orchestrator.route_message(zmtp_wire_frames, false).await {
       Ok(()) => Ok(()),
-      Err((returned, _)) => {
+      // All peers full (or none connected): ownership of the message came back, queue it.
+      Err((returned, ZmqError::ResourceLimitReached)) => {
         self.queue_message_or_error(returned, global_sndhwm, global_sndtimeo).await
       }
+      // Any other failure (blocking send timed out, pipe closed, socket closing) consumed the
+      // message: report it instead of queueing an empty batch and answering Ok.
+      Err((_, e)) => Err(e),
     }
   }
 
